@@ -753,6 +753,50 @@ func c11Requests() []c11Request {
 	}
 }
 
+// request types that need a conflict-allowing database
+func c11ConflictRequests() []c11Request {
+	docClaims := func(e *c11Env, id, marker string, deleted bool) []c11Claim {
+		return []c11Claim{{What: "document readable with the written body", Chk: func() (bool, string) {
+			r := e.admin("GET", "/{{.keyspace}}/"+id, "")
+			return r.Code == 200 && strings.Contains(r.Body.String(), marker), fmt.Sprintf("GET -> %d %.200s", r.Code, r.Body.String())
+		}}}
+	}
+	return []c11Request{
+		{Name: "push-conflicting-winner-over-large-body", Prepare: func(e *c11Env, n int) (func() *TestResponse, func() string, []c11Claim) {
+			// the current revision (body too large to stay inline in the revision tree) becomes a non-winning leaf:
+			// its body is moved to a document of its own before the write commits
+			id := fmt.Sprintf("c11doc%d", n)
+			rev1 := c11Rev(e.mustAdmin("PUT", "/{{.keyspace}}/"+id, `{"ch":["A"],"m":"first"}`, 201))
+			oldm := fmt.Sprintf("loser-%d-", n) + strings.Repeat("x", 300)
+			rev2 := c11Rev(e.mustAdmin("PUT", "/{{.keyspace}}/"+id+"?rev="+rev1, `{"ch":["A"],"m":"`+oldm+`"}`, 201))
+			m := fmt.Sprintf("marker-%d", n)
+			claims := append(docClaims(e, id, m, false), c11Claim{What: "the leaf that stopped being current is still readable by revision", Chk: func() (bool, string) {
+				r := e.admin("GET", "/{{.keyspace}}/"+id+"?rev="+rev2, "")
+				return r.Code == 200 && strings.Contains(r.Body.String(), oldm), fmt.Sprintf("GET ?rev=%s -> %d %.120s", rev2, r.Code, r.Body.String())
+			}})
+			return func() *TestResponse {
+					return e.admin("PUT", "/{{.keyspace}}/"+id+"?new_edits=false", `{"ch":["B"],"m":"`+m+`","_rev":"2-zzzzzzzz","_revisions":{"start":2,"ids":["zzzzzzzz","`+strings.SplitN(rev1, "-", 2)[1]+`"]}}`)
+				},
+				func() string { return e.observeDoc(id) + e.admin("GET", "/{{.keyspace}}/"+id+"?rev="+rev2, "").Body.String() }, claims
+		}},
+		{Name: "push-conflicting-loser-with-large-body", Prepare: func(e *c11Env, n int) (func() *TestResponse, func() string, []c11Claim) {
+			// a pushed revision that does not become current, with a body too large to stay inline in the revision tree
+			id := fmt.Sprintf("c11doc%d", n)
+			rev1 := c11Rev(e.mustAdmin("PUT", "/{{.keyspace}}/"+id, `{"ch":["A"],"m":"first"}`, 201))
+			e.mustAdmin("PUT", "/{{.keyspace}}/"+id+"?rev="+rev1, `{"ch":["A"],"m":"winner-`+fmt.Sprint(n)+`"}`, 201)
+			m := fmt.Sprintf("marker-%d-", n) + strings.Repeat("y", 300)
+			claims := append(docClaims(e, id, "winner-"+fmt.Sprint(n), false), c11Claim{What: "the pushed non-winning leaf is readable by revision", Chk: func() (bool, string) {
+				r := e.admin("GET", "/{{.keyspace}}/"+id+"?rev=2-00000000", "")
+				return r.Code == 200 && strings.Contains(r.Body.String(), m), fmt.Sprintf("GET ?rev=2-00000000 -> %d %.120s", r.Code, r.Body.String())
+			}})
+			return func() *TestResponse {
+					return e.admin("PUT", "/{{.keyspace}}/"+id+"?new_edits=false", `{"ch":["B"],"m":"`+m+`","_rev":"2-00000000","_revisions":{"start":2,"ids":["00000000","`+strings.SplitN(rev1, "-", 2)[1]+`"]}}`)
+				},
+				func() string { return e.observeDoc(id) + e.admin("GET", "/{{.keyspace}}/"+id+"?rev=2-00000000", "").Body.String() }, claims
+		}},
+	}
+}
+
 // zero-fault rejection rows: requests that must be refused and leave no trace
 func c11Rejections() []c11Request {
 	mk := func(name, body string, withParent bool, asUser bool, want int) c11Request {
@@ -788,10 +832,18 @@ func c11Rejections() []c11Request {
 func TestVerif_C11_Faults(t *testing.T) {
 	run := vlib.Start(t, "C11", "rest-faults")
 	defer run.Finish()
+	c11RunRequests(t, run, false, append(c11Requests(), c11Rejections()...))
+	c11RunRequests(t, run, true, c11ConflictRequests())
+}
+
+func c11RunRequests(t *testing.T, run *vlib.Run, allowConflicts bool, requests []c11Request) {
 	vs := newVStore(t)
 	rt := NewRestTesterDefaultCollection(t, &RestTesterConfig{SyncFn: c11SyncFn, CustomTestBucket: vs.vtb})
 	defer rt.Close()
 	_ = rt.Bucket()
+	if allowConflicts {
+		rt.GetDatabase().EnableAllowConflicts(t)
+	}
 	e := &c11Env{t: t, run: run, vs: vs, rt: rt, faultAt: -1, fault2At: -1}
 	vs.SetFault(e.pre_)
 	vs.SetMid(func(op *base.VerifOp, actor string) error {
@@ -807,7 +859,7 @@ func TestVerif_C11_Faults(t *testing.T) {
 	e.mustAdmin("PUT", "/{{.keyspace}}/warmup", `{"ch":["A"]}`, 201)
 
 	kinds := []string{"error", "cas", "cas-persistent", "timeout-applied"}
-	for _, rq := range append(c11Requests(), c11Rejections()...) {
+	for _, rq := range requests {
 		isRejection := strings.HasPrefix(rq.Name, "reject-")
 		// fault-free run: the trace, and the request's baseline behaviour
 		e.n++
